@@ -779,7 +779,12 @@ SKIP_RECORD_PARSE:
             {
                 ssl->expectedEpoch[0] = ssl->rec.epoch[0];
                 ssl->expectedEpoch[1] = ssl->rec.epoch[1];
-                goto ADVANCE_TO_APP_DATA;
+                /* First record seen on this epoch: start a fresh anti-replay
+                   window and note this record's sequence number in it, so
+                   that a copy of the record is not accepted later */
+                ssl->dtlsBitmap = 0;
+                Memset(ssl->lastRsn, 0x0, sizeof(ssl->lastRsn));
+                goto CHECK_REPLAY_WINDOW;
             }
 
             /* Now just skip the record as a duplicate */
@@ -843,6 +848,7 @@ SKIP_RECORD_PARSE:
             return MATRIXSSL_SUCCESS;
         }
 
+CHECK_REPLAY_WINDOW:
         if (dtlsChkReplayWindow(ssl, ssl->rec.rsn) != 1)
         {
             psTraceIntDtls("Seen this record before %d\n", ssl->rec.rsn[5]);
@@ -855,7 +861,6 @@ SKIP_RECORD_PARSE:
             return MATRIXSSL_SUCCESS;
         }
     }
-ADVANCE_TO_APP_DATA:
 #endif /* USE_DTLS */
 
 #ifdef USE_MATRIXSSL_STATS
